@@ -7,7 +7,14 @@
        a line restricted to a segment is minimised at the clamped global minimiser
        ([clamp_of_convex_line_min]); geometric form for a convex set ([segment_end_optimal_convex]),
        instances for triangles and rectangles.
-    2. line_to_triangle. 3. line_segment_to_triangle.  *)
+    2. line_to_triangle (both arms; parallel and non-parallel case).
+    3. line_segment_to_triangle.
+    4. line_to_rectangle, line_segment_to_rectangle: optimal unless the returned distance lies in (0, eps)
+       (`if best_dist < epsilon: break` skips edges); refutations inside that band.
+    5. triangle_to_triangle, triangle_to_rectangle, rectangle_to_rectangle: a pair of points of two planar
+       convex polygons can be slid along a direction common to the two planes until one point lies on an edge.
+    Every edge must be at least sqrt(eps) long and [0 < eps < 1] strictly: the domain of
+    [Proofs/DistLine.v: line_to_line_segment_optimal] (refuted at eps = 1 there). *)
 From Coq Require Import Reals Lra Psatz List Bool.
 From D3 Require Import Base.Ops Base.Vec Base.RVec Base.RVec2 Spec.Convex Spec.Prims Model.DistPrim Model.DistPrimComb
   Proofs.DistBase Proofs.DistPoint Proofs.DistRect Proofs.DistTriangle Proofs.DistLine Proofs.DistPlane Proofs.DistComb.
@@ -112,6 +119,35 @@ Proof.
   exists ((1 - t) * k0 + t * m0), ((1 - t) * k1 + t * m1).
   split; [apply Rabs_le; nra|]. split; [apply Rabs_le; nra|]. veq.
 Qed.
+
+(** the form used for arms 1/2 of line_segment_to_X: the distance [d_end] of the start point to [C]
+    (as returned by point_to_X) is a lower bound for every pair (point of the ray, point of [C]) *)
+Lemma segment_end_optimal (C : set3) (s sd ystar : V3R) (ts d_end : R) :
+  convex C -> C ystar ->
+  (forall u y, C y -> norm (vsub (vadd s (vscale ts sd)) ystar) <= norm (vsub (vadd s (vscale u sd)) y)) ->
+  ts < 0 -> closest_on C s d_end ->
+  forall t y, 0 <= t -> C y -> d_end <= norm (vsub (vadd s (vscale t sd)) y).
+Proof.
+  intros Hcv Hy Hopt Hts Hcl t y Ht Hyc.
+  destruct (segment_end_optimal_convex C s sd ystar ts Hcv Hy Hopt Hts t y Ht Hyc) as (y' & Hy' & Hle).
+  pose proof (Hcl y' Hy'). lra.
+Qed.
+
+Lemma segment_end_optimal_triangle (a b c s sd ystar : V3R) (ts d_end : R) :
+  triangle_set a b c ystar ->
+  (forall u y, triangle_set a b c y ->
+     norm (vsub (vadd s (vscale ts sd)) ystar) <= norm (vsub (vadd s (vscale u sd)) y)) ->
+  ts < 0 -> closest_on (triangle_set a b c) s d_end ->
+  forall t y, 0 <= t -> triangle_set a b c y -> d_end <= norm (vsub (vadd s (vscale t sd)) y).
+Proof. apply segment_end_optimal. apply triangle_convex. Qed.
+
+Lemma segment_end_optimal_rectangle (c a0 a1 : V3R) (l0 l1 : R) (s sd ystar : V3R) (ts d_end : R) :
+  rectangle_set c a0 a1 l0 l1 ystar ->
+  (forall u y, rectangle_set c a0 a1 l0 l1 y ->
+     norm (vsub (vadd s (vscale ts sd)) ystar) <= norm (vsub (vadd s (vscale u sd)) y)) ->
+  ts < 0 -> closest_on (rectangle_set c a0 a1 l0 l1) s d_end ->
+  forall t y, 0 <= t -> rectangle_set c a0 a1 l0 l1 y -> d_end <= norm (vsub (vadd s (vscale t sd)) y).
+Proof. apply segment_end_optimal. apply rectangle_convex. Qed.
 
 (** ** 2. line_to_triangle *)
 (** *** leaving a triangle along a ray, in barycentric coordinates *)
@@ -1643,4 +1679,345 @@ Proof.
       assert (Hne : fst se <> snd se) by (eapply tri_edges_nondeg; [|exact Hin]; assumption).
       pose proof (lstt_opt (fst se) (snd se) a1 b1 c1 eps Hne He Hn1 K1 K2 K3) as Hopt.
       specialize (Hopt ltac:(destruct se; apply B2; exact Hin) y x Hy Hx). rewrite norm_sub_comm. lra.
+Qed.
+
+(** a family of (rectangle edge, B) candidates bounds every (point on a rectangle edge, point of B) pair *)
+Lemma rect_edge_family (c a0 a1 : V3R) (l0 l1 : R) (B : set3) (g : V3R * V3R -> R) (d : R) :
+  (forall l se, In l (rectangle_edges c (vscale (/ 2 * l0) a0) (vscale (/ 2 * l1) a1)) -> In se l ->
+     d <= g se /\ optimal (segment_set (fst se) (snd se)) B (g se)) ->
+  forall x y, on_rect_edge c a0 a1 (/ 2 * l0) (/ 2 * l1) x -> B y -> d <= norm (vsub x y).
+Proof.
+  intros H x y (l & se & Hl & Hin & Hx) Hy. destruct (H l se Hl Hin) as [Hle Hopt].
+  pose proof (Hopt x y Hx Hy). lra.
+Qed.
+
+Lemma tri_edge_family (a b c : V3R) (B : set3) (g : V3R * V3R -> R) (d : R) :
+  (forall se, In se (tri_edges a b c) -> d <= g se /\ optimal (segment_set (fst se) (snd se)) B (g se)) ->
+  forall x y, on_tri_edge a b c x -> B y -> d <= norm (vsub x y).
+Proof.
+  intros H x y (se & Hin & Hx) Hy. destruct (H se Hin) as [Hle Hopt].
+  pose proof (Hopt x y Hx Hy). lra.
+Qed.
+
+(** *** triangle_to_rectangle (callees with eps = 1e-6, no early exit): minimum of the seven candidates.
+        The `break` band of _line_to_rectangle is excluded on the returned distance: if it is at least
+        1e-6, so is every candidate *)
+Theorem triangle_to_rectangle_optimal (a b c rc a0 a1 : V3R) (l0 l1 : R) d p1 p2 :
+  cross (vsub b a) (vsub c a) <> vzero ->
+  eps6 <= dot (vsub b a) (vsub b a) -> eps6 <= dot (vsub c b) (vsub c b) -> eps6 <= dot (vsub a c) (vsub a c) ->
+  dot a0 a0 = 1 -> dot a1 a1 = 1 -> dot a0 a1 = 0 ->
+  0 <= l0 -> 0 <= l1 -> eps6 <= l0 * l0 -> eps6 <= l1 * l1 ->
+  (forall se, In se (tri_edges a b c) -> edge_band (cross a0 a1) eps6 se) ->
+  (let nrm := Support.norm_vector (cross (vsub b a) (vsub c a)) in
+   (dot nrm a0 = 0 \/ eps6 < Rabs (dot nrm a0)) /\ (dot nrm a1 = 0 \/ eps6 < Rabs (dot nrm a1))) ->
+  triangle_to_rectangle a b c rc a0 a1 l0 l1 = (d, p1, p2) ->
+  d = 0 \/ eps6 <= d ->
+  optimal (triangle_set a b c) (rectangle_set rc a0 a1 l0 l1) d.
+Proof.
+  intros Hnd K1 K2 K3 U0 U1 U01 H0 H1 L0 L1 B1 [B20 B21].
+  pose proof eps6_pos as H6p. pose proof eps6_lt_1 as H6l.
+  assert (P0 : 0 < l0) by nra. assert (P1 : 0 < l1) by nra.
+  unfold triangle_to_rectangle. rewrite half_eq, half_R. cbv zeta. ops_R.
+  intros E [->|Hd]; [apply optimal_zero|].
+  match type of E with scan _ ?c2 (scan _ ?c1 _) = _ => set (cands1 := c1) in *; set (cands2 := c2) in * end.
+  assert (Hnb : forall c old new : R3R, no_break c old new = true -> rd c <= d - 1) by (intros; discriminate).
+  assert (Hd2 : forall x, In x cands2 -> d <= rd x).
+  { intros x Hx. pose proof (scan_min no_break (d - 1) cands2 (scan no_break cands1 init_best) Hnb) as H.
+    rewrite E in H. change (rd (d, p1, p2)) with d in H. apply H; [lra|exact Hx]. }
+  assert (Hd1 : forall x, In x cands1 -> d <= rd x).
+  { intros x Hx. pose proof (scan_le_best no_break cands2 (scan no_break cands1 init_best)) as Hle.
+    rewrite E in Hle. change (rd (d, p1, p2)) with d in Hle.
+    assert (Hlt : d - 1 < rd (scan no_break cands1 init_best)) by lra.
+    pose proof (scan_min no_break (d - 1) cands1 init_best Hnb Hlt x Hx). lra. }
+  apply (pair_reduction_optimal _ _ (on_tri_edge a b c) (on_rect_edge rc a0 a1 (/ 2 * l0) (/ 2 * l1))).
+  - apply tri_rect_reduction; auto. apply cross_unit; assumption.
+  - apply (tri_edge_family a b c _ (fun se => rd (line_segment_to_rectangle (fst se) (snd se) rc a0 a1 l0 l1 eps6))).
+    intros se Hin.
+    assert (Hle : d <= rd (line_segment_to_rectangle (fst se) (snd se) rc a0 a1 l0 l1 eps6)).
+    { apply Hd1. unfold cands1. apply (in_map (fun se => line_segment_to_rectangle (fst se) (snd se) rc a0 a1 l0 l1 eps6)). exact Hin. }
+    split; [exact Hle|].
+    apply lstr_opt; auto; try lra.
+    + eapply tri_edges_nondeg; [|exact Hin]; assumption.
+    + destruct se; apply B1; exact Hin.
+  - intros x y Hx Hy. rewrite norm_sub_comm. revert y x Hy Hx.
+    apply (rect_edge_family rc a0 a1 l0 l1 _ (fun se => rd (line_segment_to_triangle (fst se) (snd se) a b c eps6))).
+    intros l se Hl Hin.
+    assert (Hle : d <= rd (line_segment_to_triangle (fst se) (snd se) a b c eps6)).
+    { rewrite <- rd_rswap. apply Hd2. unfold cands2.
+      apply (in_map (fun se => rswap (line_segment_to_triangle (fst se) (snd se) a b c eps6))).
+      apply in_concat. exists l. split; assumption. }
+    split; [exact Hle|].
+    apply lstt_opt; auto; try lra.
+    + apply (rect_edges_nondeg rc a0 a1 l0 l1 l se); auto; try (apply unit_nonzero; assumption).
+      rewrite half_R. exact Hl.
+    + apply (edge_band_dir _ _ (fst se, snd se) a0 a1); auto. cbn [fst snd].
+      apply (rect_edge_dir rc a0 a1 l0 l1 l se); auto.
+Qed.
+
+(** *** rectangle_to_rectangle: `if dist <= epsilon: break` leaves the inner loop, so the result is the
+        minimum of the eight candidates only if it is above [eps]; the callees run with 1e-6 *)
+Theorem rectangle_to_rectangle_optimal (c1 a10 a11 : V3R) (l10 l11 : R) (c2 a20 a21 : V3R) (l20 l21 eps : R) d p1 p2 :
+  dot a10 a10 = 1 -> dot a11 a11 = 1 -> dot a10 a11 = 0 ->
+  dot a20 a20 = 1 -> dot a21 a21 = 1 -> dot a20 a21 = 0 ->
+  0 <= l10 -> 0 <= l11 -> 0 <= l20 -> 0 <= l21 ->
+  eps6 <= l10 * l10 -> eps6 <= l11 * l11 -> eps6 <= l20 * l20 -> eps6 <= l21 * l21 ->
+  (let n2 := cross a20 a21 in
+   (dot n2 a10 = 0 \/ eps6 < Rabs (dot n2 a10)) /\ (dot n2 a11 = 0 \/ eps6 < Rabs (dot n2 a11))) ->
+  (let n1 := cross a10 a11 in
+   (dot n1 a20 = 0 \/ eps6 < Rabs (dot n1 a20)) /\ (dot n1 a21 = 0 \/ eps6 < Rabs (dot n1 a21))) ->
+  rectangle_to_rectangle c1 a10 a11 l10 l11 c2 a20 a21 l20 l21 eps = (d, p1, p2) ->
+  d = 0 \/ (eps < d /\ eps6 <= d) ->
+  optimal (rectangle_set c1 a10 a11 l10 l11) (rectangle_set c2 a20 a21 l20 l21) d.
+Proof.
+  intros U10 U11 U1 U20 U21 U2 H10 H11 H20 H21 L10 L11 L20 L21 [B10 B11] [B20 B21].
+  pose proof eps6_pos as H6p. pose proof eps6_lt_1 as H6l.
+  assert (P10 : 0 < l10) by nra. assert (P11 : 0 < l11) by nra.
+  assert (P20 : 0 < l20) by nra. assert (P21 : 0 < l21) by nra.
+  unfold rectangle_to_rectangle. rewrite half_eq, half_R. cbv zeta. ops_R.
+  intros E [->|[Hd Hd6]]; [apply optimal_zero|].
+  match type of E with
+  | fold_left (fun best segs => scan ?brk (map ?f2 segs) best) ?ll2
+      (fold_left (fun best' segs' => scan _ (map ?f1 segs') best') ?ll1 _) = _ =>
+    set (pass1 := fold_left (fun best segs => scan brk (map f1 segs) best) ll1 init_best) in *;
+    pose proof (fold_scan_min brk eps f2 ll2 pass1) as M2;
+    pose proof (fold_scan_le_best brk f2 ll2 pass1) as Le2;
+    pose proof (fold_scan_min brk eps f1 ll1 init_best) as M1
+  end.
+  assert (Hbrk : forall c old new : R3R, Rleb (rd c) eps = true -> rd c <= eps) by (intros c _ _ Hc; rb_hyp Hc; exact Hc).
+  specialize (M2 Hbrk). specialize (M1 Hbrk). fold pass1 in M1.
+  rewrite E in M2, Le2. change (rd (d, p1, p2)) with d in M2, Le2.
+  specialize (M2 Hd). assert (Hlt : eps < rd pass1) by lra. specialize (M1 Hlt). cbv beta in M1, M2.
+  apply (pair_reduction_optimal _ _ (on_rect_edge c1 a10 a11 (/ 2 * l10) (/ 2 * l11))
+                                    (on_rect_edge c2 a20 a21 (/ 2 * l20) (/ 2 * l21))).
+  - apply rect_rect_reduction; auto; apply cross_unit; assumption.
+  - apply (rect_edge_family c1 a10 a11 l10 l11 _
+             (fun se => rd (line_segment_to_rectangle (fst se) (snd se) c2 a20 a21 l20 l21 eps6))).
+    intros l se Hl Hin.
+    assert (Hle : d <= rd (line_segment_to_rectangle (fst se) (snd se) c2 a20 a21 l20 l21 eps6)).
+    { pose proof (M1 l se Hl Hin). lra. }
+    split; [exact Hle|].
+    apply lstr_opt; auto; try lra.
+    + apply (rect_edges_nondeg c1 a10 a11 l10 l11 l se); auto; try (apply unit_nonzero; assumption).
+      rewrite half_R. exact Hl.
+    + apply (edge_band_dir _ _ (fst se, snd se) a10 a11); auto. cbn [fst snd].
+      apply (rect_edge_dir c1 a10 a11 l10 l11 l se); auto.
+  - intros x y Hx Hy. rewrite norm_sub_comm. revert y x Hy Hx.
+    apply (rect_edge_family c2 a20 a21 l20 l21 _
+             (fun se => rd (line_segment_to_rectangle (fst se) (snd se) c1 a10 a11 l10 l11 eps6))).
+    intros l se Hl Hin.
+    assert (Hle : d <= rd (line_segment_to_rectangle (fst se) (snd se) c1 a10 a11 l10 l11 eps6)).
+    { rewrite <- rd_rswap. apply (M2 l se Hl Hin). }
+    split; [exact Hle|].
+    apply lstr_opt; auto; try lra.
+    + apply (rect_edges_nondeg c2 a20 a21 l20 l21 l se); auto; try (apply unit_nonzero; assumption).
+      rewrite half_R. exact Hl.
+    + apply (edge_band_dir _ _ (fst se, snd se) a20 a21); auto. cbn [fst snd].
+      apply (rect_edge_dir c2 a20 a21 l20 l21 l se); auto.
+Qed.
+
+(** *** the hypotheses of the three polygon theorems are satisfiable *)
+(** the band test for a direction known only up to its (irrational) length *)
+Lemma band_of_bound (w a : V3R) (n eps B : R) :
+  0 < n -> n <= B -> 0 <= eps ->
+  dot w a = 0 \/ eps * B < Rabs (dot w a) ->
+  dot (vdivs w n) a = 0 \/ eps < Rabs (dot (vdivs w n) a).
+Proof.
+  intros Hn HB He [Z|H]; rewrite dot_vdivs_l by lra.
+  - left. rewrite Z. unfold Rdiv. ring.
+  - right. unfold Rdiv. rewrite Rabs_mult, (Rabs_pos_eq (/ n)) by (left; apply Rinv_0_lt_compat; exact Hn).
+    apply (Rmult_lt_reg_r n); [exact Hn|]. rewrite Rmult_assoc, Rinv_l by lra. nra.
+Qed.
+
+Lemma norm_bound (a : V3R) (B : R) : a <> vzero -> 0 <= B -> dot a a <= B * B -> 0 < norm a <= B.
+Proof.
+  intros Ha HB H. split; [|apply norm_le_sq; assumption].
+  pose proof (norm_nonneg a). destruct (Req_dec (norm a) 0) as [Z|Z]; [|lra].
+  exfalso. apply Ha. apply norm_zero_iff. exact Z.
+Qed.
+
+Lemma edge_band_intro (nrm s e : V3R) (eps B : R) :
+  s <> e -> 0 <= eps -> 0 <= B -> dot (vsub e s) (vsub e s) <= B * B ->
+  dot nrm (vsub e s) = 0 \/ eps * B < Rabs (dot nrm (vsub e s)) ->
+  edge_band nrm eps (s, e).
+Proof.
+  intros Hne He HB Hd H. unfold edge_band. cbn [fst snd]. cbv zeta. unfold convert_segment_to_line.
+  assert (Hnz : vsub e s <> vzero) by (intros Z; apply Hne; symmetry; apply vsub_eq_zero; exact Z).
+  destruct (norm_bound _ B Hnz HB Hd) as [Hp Hle]. ops_R.
+  rewrite (proj2 (Rltb_true 0 (norm (vsub e s)))) by exact Hp. cbn [fst].
+  rewrite !(dot_comm nrm). apply (band_of_bound _ _ _ _ B); auto. rewrite !(dot_comm _ nrm). exact H.
+Qed.
+
+Lemma norm_vector_band_intro (w a : V3R) (eps B : R) :
+  w <> vzero -> 0 <= eps -> 0 <= B -> dot w w <= B * B ->
+  dot w a = 0 \/ eps * B < Rabs (dot w a) ->
+  dot (Support.norm_vector w) a = 0 \/ eps < Rabs (dot (Support.norm_vector w) a).
+Proof.
+  intros Hw He HB Hd H. destruct (norm_bound w B Hw HB Hd) as [Hp Hle].
+  unfold Support.norm_vector. ops_R. rewrite (proj2 (Reqb_false (norm w) 0)) by lra.
+  apply (band_of_bound _ _ _ _ B); auto.
+Qed.
+
+Lemma eps6_small : eps6 (O:=ROps) < 1 / 100.
+Proof. unfold eps6. cbn [cst div ROps]. unfold Q2R. simpl. lra. Qed.
+
+Definition wt_a1 : V3R := V (1 / 4) (1 / 4) 1.
+Definition wt_b1 : V3R := V (1 / 4) (1 / 4) (-1).
+Definition wt_c1 : V3R := V (5 / 4) (1 / 4) 1.
+
+Ltac vne := let E := fresh in intros E; injection E; intros; lra.
+
+Example triangle_to_triangle_optimal_nonvacuous :
+  exists a1 b1 c1 a2 b2 c2 eps d p1 p2,
+    cross (vsub b1 a1) (vsub c1 a1) <> vzero /\ cross (vsub b2 a2) (vsub c2 a2) <> vzero /\ 0 < eps < 1 /\
+    eps <= dot (vsub b1 a1) (vsub b1 a1) /\ eps <= dot (vsub c1 b1) (vsub c1 b1) /\ eps <= dot (vsub a1 c1) (vsub a1 c1) /\
+    eps <= dot (vsub b2 a2) (vsub b2 a2) /\ eps <= dot (vsub c2 b2) (vsub c2 b2) /\ eps <= dot (vsub a2 c2) (vsub a2 c2) /\
+    (forall se, In se (tri_edges a1 b1 c1) -> edge_band (Support.norm_vector (cross (vsub b2 a2) (vsub c2 a2))) eps se) /\
+    (forall se, In se (tri_edges a2 b2 c2) -> edge_band (Support.norm_vector (cross (vsub b1 a1) (vsub c1 a1))) eps se) /\
+    triangle_to_triangle a1 b1 c1 a2 b2 c2 eps = (d, p1, p2) /\
+    optimal (triangle_set a1 b1 c1) (triangle_set a2 b2 c2) d.
+Proof.
+  destruct (triangle_to_triangle wt_a1 wt_b1 wt_c1 wit_a wit_b wit_c eps6) as [[d p1] p2] eqn:E.
+  exists wt_a1, wt_b1, wt_c1, wit_a, wit_b, wit_c, eps6, d, p1, p2.
+  pose proof eps6_pos as H6p. pose proof eps6_lt_1 as H6l. pose proof eps6_small as H6s.
+  assert (Hn1 : cross (vsub wt_b1 wt_a1) (vsub wt_c1 wt_a1) <> vzero).
+  { unfold wt_a1, wt_b1, wt_c1. vunfold. intros Z. injection Z as _ Z _. lra. }
+  assert (H6 : 0 < eps6 (O:=ROps) < 1) by lra.
+  assert (K1 : eps6 <= dot (vsub wt_b1 wt_a1) (vsub wt_b1 wt_a1)) by (unfold wt_a1, wt_b1; vunfold; lra).
+  assert (K2 : eps6 <= dot (vsub wt_c1 wt_b1) (vsub wt_c1 wt_b1)) by (unfold wt_c1, wt_b1; vunfold; lra).
+  assert (K3 : eps6 <= dot (vsub wt_a1 wt_c1) (vsub wt_a1 wt_c1)) by (unfold wt_a1, wt_c1; vunfold; lra).
+  destruct wit_tri_edges as (M1 & M2 & M3).
+  assert (B1 : forall se, In se (tri_edges wt_a1 wt_b1 wt_c1) ->
+               edge_band (Support.norm_vector (cross (vsub wit_b wit_a) (vsub wit_c wit_a))) eps6 se).
+  { rewrite wit_nrm. intros se [<-|[<-|[<-|[]]]].
+    - apply (edge_band_intro _ _ _ _ 1); [unfold wt_a1, wt_c1; vne|lra|lra|unfold wt_a1, wt_c1; vunfold; lra|].
+      left. unfold wt_a1, wt_c1. vunfold. ring.
+    - apply (edge_band_intro _ _ _ _ 2); [unfold wt_a1, wt_b1; vne|lra|lra|unfold wt_a1, wt_b1; vunfold; lra|].
+      right. replace (dot (V 0 0 1) (vsub wt_b1 wt_a1)) with (-2) by (unfold wt_a1, wt_b1; vunfold; ring).
+      rewrite Rabs_left; lra.
+    - apply (edge_band_intro _ _ _ _ 3); [unfold wt_c1, wt_b1; vne|lra|lra|unfold wt_c1, wt_b1; vunfold; lra|].
+      right. replace (dot (V 0 0 1) (vsub wt_c1 wt_b1)) with 2 by (unfold wt_c1, wt_b1; vunfold; ring).
+      rewrite Rabs_pos_eq; lra. }
+  assert (Hw : cross (vsub wt_b1 wt_a1) (vsub wt_c1 wt_a1) = V 0 (-2) 0) by (unfold wt_a1, wt_b1, wt_c1; veq).
+  assert (Hnrm : Support.norm_vector (cross (vsub wt_b1 wt_a1) (vsub wt_c1 wt_a1)) = V 0 (-1) 0).
+  { rewrite Hw. unfold Support.norm_vector.
+    rewrite (norm_abs_of_sq (V 0 (-2) 0) 2) by (vunfold; ring). rewrite Rabs_pos_eq by lra. ops_R.
+    rewrite (proj2 (Reqb_false 2 0)) by lra. vunfold. f_equal; field. }
+  assert (B2 : forall se, In se (tri_edges wit_a wit_b wit_c) ->
+               edge_band (Support.norm_vector (cross (vsub wt_b1 wt_a1) (vsub wt_c1 wt_a1))) eps6 se).
+  { rewrite Hnrm. intros se [<-|[<-|[<-|[]]]].
+    - apply (edge_band_intro _ _ _ _ 1); [unfold wit_a, wit_c; vne|lra|lra|unfold wit_a, wit_c; vunfold; lra|].
+      right. replace (dot (V 0 (-1) 0) (vsub wit_a wit_c)) with 1 by (unfold wit_a, wit_c; vunfold; ring).
+      rewrite Rabs_R1. lra.
+    - apply (edge_band_intro _ _ _ _ 1); [unfold wit_a, wit_b; vne|lra|lra|unfold wit_a, wit_b; vunfold; lra|].
+      left. unfold wit_a, wit_b. vunfold. ring.
+    - apply (edge_band_intro _ _ _ _ 2); [unfold wit_c, wit_b; vne|lra|lra|unfold wit_c, wit_b; vunfold; lra|].
+      right. replace (dot (V 0 (-1) 0) (vsub wit_c wit_b)) with (-1) by (unfold wit_c, wit_b; vunfold; ring).
+      rewrite Rabs_left; lra. }
+  pose proof wit_tri_nondeg as Hn2.
+  repeat (split; [assumption|]).
+  exact (triangle_to_triangle_optimal _ _ _ _ _ _ _ _ _ _ Hn1 Hn2 H6 K1 K2 K3 M1 M2 M3 B1 B2 E).
+Qed.
+
+(** the witnesses of [Proofs/DistComb.v]: the first candidate is 0, so the result is 0 *)
+Example triangle_to_rectangle_optimal_nonvacuous :
+  exists a b c rc a0 a1 l0 l1 d p1 p2,
+    cross (vsub b a) (vsub c a) <> vzero /\
+    eps6 <= dot (vsub b a) (vsub b a) /\ eps6 <= dot (vsub c b) (vsub c b) /\ eps6 <= dot (vsub a c) (vsub a c) /\
+    dot a0 a0 = 1 /\ dot a1 a1 = 1 /\ dot a0 a1 = 0 /\
+    0 <= l0 /\ 0 <= l1 /\ eps6 <= l0 * l0 /\ eps6 <= l1 * l1 /\
+    (forall se, In se (tri_edges a b c) -> edge_band (cross a0 a1) eps6 se) /\
+    (let nrm := Support.norm_vector (cross (vsub b a) (vsub c a)) in
+     (dot nrm a0 = 0 \/ eps6 < Rabs (dot nrm a0)) /\ (dot nrm a1 = 0 \/ eps6 < Rabs (dot nrm a1))) /\
+    triangle_to_rectangle a b c rc a0 a1 l0 l1 = (d, p1, p2) /\ (d = 0 \/ eps6 <= d) /\
+    optimal (triangle_set a b c) (rectangle_set rc a0 a1 l0 l1) d.
+Proof.
+  destruct (triangle_to_rectangle (wit_lp 1) wit_b1 (wit_lp (-1)) wit_rc wit_a0 wit_a1 2 2) as [[d p1] p2] eqn:HT.
+  assert (Hd : d <= 0).
+  { change d with (rd (d, p1, p2)). rewrite <- HT. unfold triangle_to_rectangle, tri_edges. cbn [map fst snd].
+    eapply Rle_trans; [apply scan_le_best|]. eapply Rle_trans; [apply scan_le_first|].
+    destruct line_segment_to_rectangle_wit as (q1 & q2 & ->). unfold rd. cbn [fst]. lra. }
+  assert (Hnd : cross (vsub wit_b1 (wit_lp 1)) (vsub (wit_lp (-1)) (wit_lp 1)) <> vzero).
+  { unfold wit_b1, wit_lp. vunfold. intros E. injection E as E _ _. lra. }
+  pose proof max_float_gt_1 as HM. pose proof wit_a0_nz as A0. pose proof wit_a1_nz as A1.
+  pose proof eps6_pos as H6p. pose proof eps6_lt_1 as H6l. pose proof eps6_small as H6s.
+  assert (H2 : 0 < 2) by lra.
+  assert (Hd0 : d = 0).
+  { destruct (triangle_to_rectangle_feasible _ _ _ _ _ _ _ _ _ _ _ Hnd A0 A1 H2 H2 HT ltac:(lra)) as (_ & _ & Hp & _). lra. }
+  exists (wit_lp 1), wit_b1, (wit_lp (-1)), wit_rc, wit_a0, wit_a1, 2, 2, d, p1, p2.
+  assert (K1 : eps6 <= dot (vsub wit_b1 (wit_lp 1)) (vsub wit_b1 (wit_lp 1))) by (unfold wit_b1, wit_lp; vunfold; lra).
+  assert (K2 : eps6 <= dot (vsub (wit_lp (-1)) wit_b1) (vsub (wit_lp (-1)) wit_b1)) by (unfold wit_b1, wit_lp; vunfold; lra).
+  assert (K3 : eps6 <= dot (vsub (wit_lp 1) (wit_lp (-1))) (vsub (wit_lp 1) (wit_lp (-1)))) by (unfold wit_lp; vunfold; lra).
+  assert (U0 : dot wit_a0 wit_a0 = 1) by (unfold wit_a0; vunfold; ring).
+  assert (U1 : dot wit_a1 wit_a1 = 1) by (unfold wit_a1; vunfold; ring).
+  assert (U01 : dot wit_a0 wit_a1 = 0) by (unfold wit_a0, wit_a1; vunfold; ring).
+  assert (P2 : 0 <= 2) by lra. assert (L : eps6 (O:=ROps) <= 2 * 2) by lra.
+  assert (B1 : forall se, In se (tri_edges (wit_lp 1) wit_b1 (wit_lp (-1))) -> edge_band (cross wit_a0 wit_a1) eps6 se).
+  { replace (cross wit_a0 wit_a1) with (V 0 0 1 : V3R) by (unfold wit_a0, wit_a1; veq).
+    intros se [<-|[<-|[<-|[]]]].
+    - apply (edge_band_intro _ _ _ _ 2); [unfold wit_lp; vne|lra|lra|unfold wit_lp; vunfold; lra|].
+      right. replace (dot (V 0 0 1) (vsub (wit_lp 1) (wit_lp (-1)))) with 2 by (unfold wit_lp; vunfold; ring).
+      rewrite Rabs_pos_eq; lra.
+    - apply (edge_band_intro _ _ _ _ 5); [unfold wit_lp, wit_b1; vne|lra|lra|unfold wit_lp, wit_b1; vunfold; lra|].
+      right. replace (dot (V 0 0 1) (vsub wit_b1 (wit_lp 1))) with (-1) by (unfold wit_lp, wit_b1; vunfold; ring).
+      rewrite Rabs_left; lra.
+    - apply (edge_band_intro _ _ _ _ 5); [unfold wit_lp, wit_b1; vne|lra|lra|unfold wit_lp, wit_b1; vunfold; lra|].
+      right. replace (dot (V 0 0 1) (vsub (wit_lp (-1)) wit_b1)) with (-1) by (unfold wit_lp, wit_b1; vunfold; ring).
+      rewrite Rabs_left; lra. }
+  assert (B2 : let nrm := Support.norm_vector (cross (vsub wit_b1 (wit_lp 1)) (vsub (wit_lp (-1)) (wit_lp 1))) in
+               (dot nrm wit_a0 = 0 \/ eps6 < Rabs (dot nrm wit_a0)) /\ (dot nrm wit_a1 = 0 \/ eps6 < Rabs (dot nrm wit_a1))).
+  { cbv zeta.
+    assert (Hw : cross (vsub wit_b1 (wit_lp 1)) (vsub (wit_lp (-1)) (wit_lp 1)) = V (1 / 2) (19 / 2) 0)
+      by (unfold wit_b1, wit_lp; vunfold; f_equal; field).
+    rewrite Hw in *.
+    split; apply (norm_vector_band_intro _ _ _ 10); try lra; try exact Hnd; try (vunfold; lra); right.
+    - replace (dot (V (1 / 2) (19 / 2) 0) wit_a0) with (1 / 2) by (unfold wit_a0; vunfold; field).
+      rewrite Rabs_pos_eq; lra.
+    - replace (dot (V (1 / 2) (19 / 2) 0) wit_a1) with (19 / 2) by (unfold wit_a1; vunfold; field).
+      rewrite Rabs_pos_eq; lra. }
+  assert (Hdd : d = 0 \/ eps6 (O:=ROps) <= d) by (left; exact Hd0).
+  repeat (split; [assumption|]).
+  exact (triangle_to_rectangle_optimal _ _ _ _ _ _ _ _ _ _ _ Hnd K1 K2 K3 U0 U1 U01 P2 P2 L L B1 B2 HT Hdd).
+Qed.
+
+Example rectangle_to_rectangle_optimal_nonvacuous :
+  exists c1 a10 a11 l10 l11 c2 a20 a21 l20 l21 eps d p1 p2,
+    dot a10 a10 = 1 /\ dot a11 a11 = 1 /\ dot a10 a11 = 0 /\
+    dot a20 a20 = 1 /\ dot a21 a21 = 1 /\ dot a20 a21 = 0 /\
+    0 <= l10 /\ 0 <= l11 /\ 0 <= l20 /\ 0 <= l21 /\
+    eps6 <= l10 * l10 /\ eps6 <= l11 * l11 /\ eps6 <= l20 * l20 /\ eps6 <= l21 * l21 /\
+    (let n2 := cross a20 a21 in
+     (dot n2 a10 = 0 \/ eps6 < Rabs (dot n2 a10)) /\ (dot n2 a11 = 0 \/ eps6 < Rabs (dot n2 a11))) /\
+    (let n1 := cross a10 a11 in
+     (dot n1 a20 = 0 \/ eps6 < Rabs (dot n1 a20)) /\ (dot n1 a21 = 0 \/ eps6 < Rabs (dot n1 a21))) /\
+    rectangle_to_rectangle c1 a10 a11 l10 l11 c2 a20 a21 l20 l21 eps = (d, p1, p2) /\
+    (d = 0 \/ (eps < d /\ eps6 <= d)) /\
+    optimal (rectangle_set c1 a10 a11 l10 l11) (rectangle_set c2 a20 a21 l20 l21) d.
+Proof.
+  pose proof (rectangle_to_rectangle_wit_le eps6) as Hd.
+  destruct (rectangle_to_rectangle wit_c1 wit_a0 wit_ld 2 2 wit_rc wit_a0 wit_a1 2 2 eps6) as [[d p1] p2] eqn:HT.
+  unfold rd in Hd. cbn [fst] in Hd.
+  pose proof max_float_gt_1 as HM. pose proof wit_a0_nz as A0. pose proof wit_a1_nz as A1. pose proof wit_ld_nz as A2.
+  pose proof eps6_pos as H6p. pose proof eps6_lt_1 as H6l. pose proof eps6_small as H6s.
+  assert (H2 : 0 < 2) by lra.
+  assert (Hd0 : d = 0).
+  { destruct (rectangle_to_rectangle_feasible _ _ _ _ _ _ _ _ _ _ _ _ _ _ A0 A2 H2 H2 A0 A1 H2 H2 HT ltac:(lra)) as (_ & _ & Hp & _). lra. }
+  exists wit_c1, wit_a0, wit_ld, 2, 2, wit_rc, wit_a0, wit_a1, 2, 2, eps6, d, p1, p2.
+  assert (U0 : dot wit_a0 wit_a0 = 1) by (unfold wit_a0; vunfold; ring).
+  assert (U1 : dot wit_a1 wit_a1 = 1) by (unfold wit_a1; vunfold; ring).
+  assert (U2 : dot wit_ld wit_ld = 1) by (unfold wit_ld; vunfold; ring).
+  assert (U01 : dot wit_a0 wit_a1 = 0) by (unfold wit_a0, wit_a1; vunfold; ring).
+  assert (U02 : dot wit_a0 wit_ld = 0) by (unfold wit_a0, wit_ld; vunfold; ring).
+  assert (P2 : 0 <= 2) by lra. assert (L : eps6 (O:=ROps) <= 2 * 2) by lra.
+  assert (B1 : let n2 := cross wit_a0 wit_a1 in
+               (dot n2 wit_a0 = 0 \/ eps6 < Rabs (dot n2 wit_a0)) /\ (dot n2 wit_ld = 0 \/ eps6 < Rabs (dot n2 wit_ld))).
+  { cbv zeta. split; [left; unfold wit_a0, wit_a1; vunfold; ring|exact wit_rect_band]. }
+  assert (B2 : let n1 := cross wit_a0 wit_ld in
+               (dot n1 wit_a0 = 0 \/ eps6 < Rabs (dot n1 wit_a0)) /\ (dot n1 wit_a1 = 0 \/ eps6 < Rabs (dot n1 wit_a1))).
+  { cbv zeta. split; [left; unfold wit_a0, wit_ld; vunfold; ring|right].
+    replace (dot (cross wit_a0 wit_ld) wit_a1) with (-1) by (unfold wit_a0, wit_a1, wit_ld; vunfold; ring).
+    rewrite Rabs_left; lra. }
+  assert (Hdd : d = 0 \/ (eps6 (O:=ROps) < d /\ eps6 (O:=ROps) <= d)) by (left; exact Hd0).
+  split; [exact U0|]. split; [exact U2|]. split; [exact U02|]. split; [exact U0|]. split; [exact U1|]. split; [exact U01|].
+  repeat (split; [assumption|]).
+  exact (rectangle_to_rectangle_optimal _ _ _ _ _ _ _ _ _ _ _ _ _ _ U0 U2 U02 U0 U1 U01 P2 P2 P2 P2 L L L L B1 B2 HT Hdd).
 Qed.
